@@ -361,6 +361,10 @@ I, C, S, PG, TR = ("Interval", "A"), ("Circle", "A"), ("Sphere", "A"), ("Paralle
 
 def cases(tier):
     quick = tier == "quick"
+    # solver strategy for the sqrt/quotient chains of polygon normals (opt-in hook of symtorch/smt.py): nlsat with
+    # variable ordering strategy 5 is tried first with a small budget; the standard strategies follow unchanged
+    from symtorch import smt
+    smt.PRE_STRATEGIES = (("nlsat-vo5", 4000 if quick else 15000),)
     cs = []
     # Interval: both end points, and the single-sided boundaries
     for n in (1, 2):
